@@ -521,6 +521,56 @@ class Scanner:
                                 out.append((f, q, "call:" + name if name in producers else "other:" + ast.unparse(v)[:40]))
         return out
 
+    def process_reinit(self):
+        """guard structure at the top of DvMethod.process(): the register -> variable mapping must be
+        re-created by an UNCONDITIONAL `self._init_variables()` statement of the function body that comes
+        before the first use of `self.var_to_name` (the `construct(...)` call); the only thing allowed to
+        precede it is the early return for methods without code.  Also: `_init_variables` itself assigns
+        `self.lparams` and `self.var_to_name` at the top level of its body.
+        -> [(what, shape)]; a shape this function does not recognise raises (broken obligation)."""
+        byq = {(f, q): fn for f, q, fn in self.funcs}
+        proc = byq.get(("decompile.py", "DvMethod.process"))
+        init = byq.get(("decompile.py", "DvMethod._init_variables"))
+        if proc is None or init is None:
+            raise RuntimeError("DvMethod.process / DvMethod._init_variables not found")
+
+        def is_reinit(st):
+            return isinstance(st, ast.Expr) and isinstance(st.value, ast.Call) and \
+                ast.unparse(st.value.func) == "self._init_variables" and not st.value.args
+
+        def uses_vmap(st):
+            return any(isinstance(n, ast.Attribute) and n.attr == "var_to_name" for n in ast.walk(st))
+        shape, before = None, []
+        for st in proc.body:
+            if is_reinit(st):
+                shape = "unconditional"
+                break
+            if any(is_reinit(n) for n in ast.walk(st) if isinstance(n, ast.stmt)):
+                cond = ast.unparse(st.test) if isinstance(st, (ast.If, ast.While)) else type(st).__name__
+                shape = "guarded:" + cond
+                break
+            if uses_vmap(st):
+                shape = "after-first-use"
+                break
+            if isinstance(st, ast.Expr) and isinstance(st.value, (ast.Constant, ast.Call)):
+                continue                       # docstring, logger call
+            if isinstance(st, ast.If) and ast.unparse(st.test) == "self.start_block is None" \
+                    and isinstance(st.body[-1], ast.Return) and not st.orelse:
+                before.append("return-if-no-code")
+                continue
+            raise RuntimeError("DvMethod.process: unrecognised statement before the re-initialisation: "
+                               + ast.unparse(st)[:80])
+        if shape is None:
+            raise RuntimeError("DvMethod.process: no call of self._init_variables()")
+        top = []
+        for st in init.body:
+            if isinstance(st, ast.Assign):
+                for t in st.targets:
+                    if isinstance(t, ast.Attribute) and isinstance(t.value, ast.Name) and t.value.id == "self":
+                        top.append(t.attr)
+        return [("DvMethod.process", shape), ("DvMethod.process:before", ",".join(before) or "-"),
+                ("DvMethod._init_variables:resets", ",".join(sorted(set(top) & {"lparams", "var_to_name"})))]
+
     def pins(self):
         out = []
         byq = {(f, q): fn for f, q, fn in self.funcs}
@@ -575,6 +625,9 @@ def generate(repo):
     L += ["]", "", "/-- producers of the `access` lists and the assignments that store them -/",
           "def accessSources : List (String × String × String) := ["]
     L += [",\n".join("  (%s, %s, %s)" % tuple(map(lstr, s)) for s in sc.access_sources())]
+    L += ["]", "", "/-- guard structure of the variable re-initialisation at the top of DvMethod.process() -/",
+          "def processReinit : List (String × String) := ["]
+    L += [",\n".join("  (%s, %s)" % tuple(map(lstr, s)) for s in sc.process_reinit())]
     L += ["]", "", "/-- normalised-AST hashes of the hand-modelled functions -/",
           "def pins : List (String × String × String) := ["]
     L += [",\n".join("  (%s, %s, %s)" % tuple(map(lstr, s)) for s in sc.pins())]
@@ -592,5 +645,6 @@ if __name__ == "__main__":
     print("global :", sc.global_mutations())
     print("alias  :", sc.alias_mutations())
     print("access :", sc.access_sources())
+    print("reinit :", sc.process_reinit())
     print("set attrs:", sorted(sc.set_attrs), "dictset attrs:", sorted(sc.dictset_attrs), sorted(sc.dictdictset_attrs))
     print("set funcs:", sorted(sc.set_funcs), "set params:", sorted(sc.set_params, key=str))
